@@ -2,7 +2,7 @@
    (or a one-line instantiation) and followed by Print Assumptions.  One file per property, importing only
    what that property's statements need, so that a change which breaks one property's proof leaves the
    others' theorems checkable. *)
-From NTRIP Require Import Base Bits Time Classify Frame FrameSpec FrameProofs Net NetSafety Pipe PipeSafe PipeFrames IncFrame PipeInc.
+From NTRIP Require Import Base Bits Time Classify Frame FrameSpec FrameProofs Net NetSafety Pipe PipeSafe PipePrefix PipeFrames IncFrame PipeInc.
 From NTRIPGen Require Import GenConsts.
 
 (* ===================== C09 ===================== *)
@@ -106,6 +106,21 @@ Theorem C09_closed_for_good :
   exists taken, buf (nth ch (chans c) (dchan _)) = (taken ++ buf (nth ch (chans c') (dchan _)))%list.
 Proof. exact pipeline_closed_for_good. Qed.
 Print Assumptions C09_closed_for_good.
+
+(* At every moment, not only at the end: after ANY number of steps of ANY schedule every consumer holds a prefix of the
+   framer's sequential output (what a process has emitted only grows, and every execution can be completed to the final
+   configuration): nothing is ever delivered out of order, twice, or invented, even transiently. *)
+Theorem C09_prefix_always :
+  forall (B M FS : Type) (fstep : FS -> B -> FS * list M) (fflush : FS -> list M) (k : nat) (live sync : nat -> bool)
+         cap0 cap1 caps (bs : list B) (s0 : FS),
+  (1 <= cap0)%nat -> (1 <= cap1)%nat -> length caps = k -> Forall (fun c => (1 <= c)%nat) caps ->
+  forall m c,
+    steps _ (nstep _ _ _ (Pipe.prog B M FS fstep fflush k live sync) Pipe.sender Pipe.receiver (SkDone B M FS)) m
+          (Pipe.init B M FS k cap0 cap1 caps bs s0) c ->
+    forall i, (i < k)%nat -> exists rest,
+      (if live i then seqrun B M FS fstep fflush s0 bs else []) = (sink_out B M FS c i ++ rest)%list.
+Proof. exact pipeline_prefix_always. Qed.
+Print Assumptions C09_prefix_always.
 
 (* The fan-out process of Pipe.v transcribes this loop of appcore.HandleMessagesUntilEOF:
      for i := range appCore.Channels { if appCore.Channels[i] != nil { appCore.Channels[i] <- message } }
